@@ -17,7 +17,7 @@ import (
 
 var c13Profile = &kvh.GenProfile{
 	Weights: map[string]int{
-		"put": 46, "del": 10, "batch": 18, "sync": 5, "reopen": 6, "merge": 3, "get": 2,
+		"put": 46, "del": 10, "batch": 18, "sync": 5, "reopen": 6, "merge": 3, "get": 2, "tear": 5,
 	},
 	MaxBatchOps: 6,
 	Big:         true,
